@@ -1,5 +1,6 @@
 /- C05: invariants of the SUB model over all event sequences -/
 import NngModel.Proofs.SubCtx
+import NngModel.Generated.C05
 namespace Nng.Sub
 open Nng Nng.Proto
 
